@@ -1,6 +1,7 @@
 import Dbg.Props.C07
 import Dbg.Spec.C08
 import Dbg.Lemmas.Window
+import Dbg.Lemmas.BucketPure
 /-! # C08 — Shard assignment is a pure, strand-symmetric function of the k-mer
 
 Theorems about the model `Msp.mspSequence` of `msp_sequence` (msp.rs 279-324). -/
@@ -175,14 +176,59 @@ theorem C08_pieces_cover (k p : Nat) (seq : Array Base) (perm : Option (Array Na
   simp only [show ¬ seq.size < k by omega, if_false] at hp
   rw [kmers_of_pieces seq k (by omega) pieces 0 hp, List.range_eq_range']; rfl
 
-/-- Full statement of the bucket clause (to be proved: see DESIGN.md C08, `bucket_pure`): with an
-    injective permutation every k-mer of every piece lies in the bucket that is a function of the
-    k-mer alone, and in rc mode that function is strand-symmetric. -/
-def C08_bucket_pure_full : Prop :=
-  ∀ (k p : Nat) (seq : Array Base) (perm : Array Nat) (rcMode : Bool) (maxLen : Nat) (pieces : List Piece),
-    1 ≤ p → p < k → k ≤ seq.size → perm.size = 4 ^ p → (∀ i j, i < perm.size → j < perm.size → perm[i]? = perm[j]? → i = j) →
-    mspSequence k p seq (some perm) rcMode maxLen = some pieces →
-    BucketsPure perm rcMode k p pieces ∧ (rcMode = true → ∀ x : Seq, x.length = k → bucketOf perm true p (rc x) = bucketOf perm true p x)
+/-- ends of all intervals of a valid chain lie inside the sequence -/
+theorem chain_all_end_le (sc : Nat → Nat) (k p m : Nat) :
+    ∀ (l : List Iv), ChainValid sc k p m l → (∀ iv ∈ l, k ≤ iv.len) → ∀ iv ∈ l, iv.start + iv.len ≤ m := by
+  intro l
+  induction l with
+  | nil => intro h; exact absurd h (by simp [ChainValid])
+  | cons b rest ih =>
+    intro hc hl iv hiv
+    rcases List.mem_cons.mp hiv with rfl | hiv
+    · exact chain_end_le sc k p m rest iv hc hl
+    · cases rest with
+      | nil => simp at hiv
+      | cons c rest' =>
+        obtain ⟨_, _, _, c4⟩ : b.start < c.start ∧ _ ∧ _ ∧ ChainValid sc k p m (c :: rest') := hc
+        exact ih c4 (fun x hx => hl x (by simp [hx])) iv hiv
+
+/-- **C08 (bucket purity).** With a permutation-based score (injective permutation of the 4^p p-mers), every k-mer of
+    every piece lies in the bucket `bucketOf`, which is a function of the k-mer alone: every occurrence of the same k-mer,
+    in any read and at any position, is emitted in a piece carrying the same bucket id. -/
+theorem C08_bucket_pure (k p : Nat) (seq : Array Base) (perm : Array Nat) (rcMode : Bool) (maxLen : Nat) (pieces : List Piece)
+    (h₁ : 1 ≤ p) (h₂ : p ≤ k) (h₃ : k ≤ seq.size) (h₄ : seq.size < 2 ^ 32) (h₅ : 2 * k - p ≤ 65535)
+    (hsz : perm.size = 4 ^ p) (hinj : PermInj perm) (h₈ : ∀ i : Nat, i < perm.size → perm[i]?.getD 0 < 2 ^ 64)
+    (h : mspSequence k p seq (some perm) rcMode maxLen = some pieces) :
+    BucketsPure perm rcMode k p pieces := by
+  unfold mspSequence at h
+  split at h
+  · cases h
+  · simp only [show ¬ seq.size < k by omega, if_false, Option.getD_some, show ¬ perm.size < 4 ^ p by omega] at h
+    obtain ⟨ivs, he, hh⟩ := C07_scan_valid seq (permScore perm rcMode) k p h₁ h₂ h₃ h₄ h₅ (permScore_lt _ _ h₈)
+    rw [he] at h
+    simp only [Option.some.injEq] at h
+    subst h
+    intro pc hpc x hx
+    obtain ⟨iv, hiv, rfl⟩ := List.mem_map.mp hpc
+    change x ∈ kmersOfSeq k (pieceOf seq iv).seq at hx
+    have hvalid := hh.2.1 iv hiv
+    have hend := chain_all_end_le _ k p seq.size ivs hh.2.2 (fun iv hiv => (hh.2.1 iv hiv).1) iv hiv
+    have hlen : (window seq iv.len iv.start).length = iv.len := window_length seq _ _ hend
+    -- x is the k-mer at offset j of the piece
+    have hk := hvalid.1
+    simp only [pieceOf] at hx
+    unfold kmersOfSeq at hx
+    rw [hlen] at hx
+    simp only [show ¬ iv.len < k by omega, if_false, List.mem_map, List.mem_range] at hx
+    obtain ⟨j, hj, rfl⟩ := hx
+    rw [window_window seq iv.len iv.start k j (by omega)]
+    exact bucket_of_interval perm rcMode k p seq iv h₁ h₂ hsz hinj hvalid hend j (by omega)
+
+/-- **C08 (strand symmetry).** In reverse-complement mode the bucket function does not distinguish a k-mer from its
+    reverse complement, so both orientations of a k-mer are sent to the same shard. -/
+theorem C08_bucket_strand_symmetric (perm : Array Nat) (p : Nat) (hsz : perm.size = 4 ^ p) (hinj : PermInj perm)
+    (x : Seq) (hp : p ≤ x.length) : bucketOf perm true p (rc x) = bucketOf perm true p x :=
+  bucketOf_rc perm p hsz hinj x hp
 
 example : ∃ pieces, mspSequence 5 2 #[0,1,2,3,0,0,1,3,2,2,1] none true 28 = some pieces ∧
     holdsC08 (Array.range 16) true 5 2 #[0,1,2,3,0,0,1,3,2,2,1] pieces = true := by decide
